@@ -366,10 +366,16 @@ def laws(cx, texts, text_reqs, stmt_srcs, by_req, cases):
             add("stmts " + hexs(unhex(d[1]) + b";\n"), ("text", t, fmt, lvl, fl, name, unhex(d[1])))
     # L3 statement trees: stmts(yprp_stmt(stmts(x))) = stmts(x)
     pr = [(c, by_req.get(c)) for c in cases if c.startswith("prstmts ")]
+    kws = set(keyword_list())
     for c, d in pr:
         src_hex = c.split()[3]
         o = by_req.get("stmts " + src_hex)
         if not d or d[0] != "ok" or not o or o[0] != "ok" or o[2] != "Eof" or o[1] == "-":
+            continue
+        # domain of the law (hypothesis of `stmt_tree_roundtrip`): a YANG keyword without argument is `input` or `output` — the parser of
+        # extension-instance substatements accepts `leaf ;`, yprp_stmt prints `leaf;`, and get_keyword wants a separator after `leaf`
+        if any(arg is None and kw in kws and kw not in (b"input", b"output") for kw, arg, fl, kids in flatten(parse_ser(o[1]))):
+            cx.count(("L3-outside", src_hex), False, "yangstr:law:stmt-tree-outside-domain")
             continue
         add("stmts " + d[1], ("tree", unhex(src_hex), o[1], c))
     if not reqs:
